@@ -12,6 +12,8 @@ REPLAY = os.path.join(EVID, 'replay')
 NPROC = 16
 
 ENV = dict(os.environ, CARGO_NET_OFFLINE='true')
+# the harness always builds into its own target directory, whatever the caller's environment says
+ENV['CARGO_TARGET_DIR'] = os.path.join(VERIF, 'harness', 'target')
 
 FORBIDDEN = re.compile(r'\b(Admitted|admit|Axiom|Axioms|Parameter|Parameters|Conjecture|Hypothesis|Variable'
                        r'|bypass_check)\b|Unset Guard|Admit Obligations|type-in-type|impredicative-set'
